@@ -54,10 +54,23 @@ func main() {
 	os.Exit(code)
 }
 
+// propUnion: end-to-end properties that are claimed only partially, as the union of the obligation
+// families of the properties whose conjunction they rest on (DESIGN.md §4, C01 and C04).
+var propUnion = map[string][]string{
+	"C01": {"C01", "C19", "C17", "C05", "C02"},
+	"C04": {"C04", "C06", "C05", "C19"},
+}
+
 func hasProp(ps []string, p string) bool {
+	want := []string{p}
+	if u, ok := propUnion[p]; ok {
+		want = u
+	}
 	for _, x := range ps {
-		if x == p {
-			return true
+		for _, w := range want {
+			if x == w {
+				return true
+			}
 		}
 	}
 	return false
